@@ -50,6 +50,12 @@ def main():
     scen += [{"kind": "store", "id": "hist1", "Ns": [3, 1, 2, 0, 2, 1] if not thorough else [4, 1, 3, 0, 2, 5, 2, 1]},
              {"kind": "store", "id": "hist2", "Ns": [2, 1, 3, 2] if not thorough else [5, 3, 4, 2, 1, 0, 3]}]
     recs, crashed = pv.run_driver_resilient(exe, scen, timeout=900)
+    # a large window filled with several OpenMP threads active (the library is built with OpenMP; any loop over the slices may be parallel)
+    big = [{"kind": "store", "id": "N9t3", "N": 9, "box": 12}] + ([{"kind": "store", "id": "N12t4", "N": 12, "box": 15}] if thorough else [])
+    recs_b, crashed_b = pv.run_driver_resilient(exe, big, timeout=900, threads=3 if not thorough else 4)
+    recs += recs_b
+    crashed.update(crashed_b)
+    scen = scen + big
     for s in scen:
         if s["id"] in crashed:
             c.violation("MatsubaraContainer4 crashed for N=%s" % (s.get("N", s.get("Ns")),), s, cls="store:crash")
